@@ -239,6 +239,8 @@ func runRaceFleet(p c17Params, env *runner.Env, res *runner.Result) {
 	var loops []*sched.Loop
 	var subWG sync.WaitGroup
 	var delivered, subErrors, subCloses int64
+	var allReturnedFlag atomic.Bool
+	allReturnedFlag.Store(true)
 	for i := 0; i < n; i++ {
 		conf := lsx.FastConfig(fmt.Sprintf("i%d", i))
 		conf.Storage.Cleanup = config.Cleanup{Enabled: true, Interval: time.Millisecond, MustKeepInterval: 0, RemoveOldInstancesInterval: time.Nanosecond}
@@ -252,7 +254,11 @@ func runRaceFleet(p c17Params, env *runner.Env, res *runner.Result) {
 			res.Verdict, res.Msg = runner.Inconclusive, err.Error()
 			return
 		}
-		defer x.Close()
+		defer func() {
+			if allReturnedFlag.Load() {
+				x.Close()
+			}
+		}()
 		loopp.AppPut(x, s, "init", "v")
 		insts = append(insts, x)
 		// subscribers
@@ -323,6 +329,7 @@ func runRaceFleet(p c17Params, env *runner.Env, res *runner.Result) {
 	for _, l := range loops {
 		if !l.Stop(10 * time.Second) {
 			allReturned = false
+			allReturnedFlag.Store(false)
 			res.Violate("sync-did-not-return-after-cancel", fmt.Sprintf("Sync of %s did not return within 10 s after cancellation (fleet)", l.I.Name), map[string]any{"goroutines": goroutineDump(8000)})
 		}
 	}
@@ -412,7 +419,12 @@ func runCancel(p c17Params, env *runner.Env, res *runner.Result) {
 		res.Verdict, res.Msg = runner.Inconclusive, err.Error()
 		return
 	}
-	defer x.Close()
+	stillRunning := false // a Sync that did not return keeps using the environment: do not close it under its feet
+	defer func() {
+		if !stillRunning {
+			x.Close()
+		}
+	}()
 	loopp.AppPut(x, s, "init", "v")
 	var loop *sched.Loop
 	var loopPtr atomic.Pointer[sched.Loop]
@@ -458,6 +470,7 @@ func runCancel(p c17Params, env *runner.Env, res *runner.Result) {
 	select {
 	case <-loop.Done():
 	case <-time.After(10 * time.Second):
+		stillRunning = true
 		sig := "sync-did-not-return-after-cancel"
 		if listFails {
 			sig = "startup-listing-ignores-cancel"
